@@ -796,6 +796,11 @@ pub fn jobs(prop: &str, ctx: &Ctx) -> Vec<Job> {
                             v.push(Job::Cont(env::cont_random(fam, s, &mut r), n_rand));
                         }
                     }
+                    for spec in env::special_cross(fam, s) {
+                        if build_caught(&spec).is_ok() {
+                            v.push(Job::Cont(spec, n_rand));
+                        }
+                    }
                 }
                 v.push(Job::Cont(DistSpec::f(Family::NormalMeanCv, s, &[2.0, 0.5]), n_rand));
             }
@@ -809,6 +814,11 @@ pub fn jobs(prop: &str, ctx: &Ctx) -> Vec<Job> {
                     }
                     for _ in 0..r_per {
                         v.push(Job::Disc(env::disc_random(fam, s, &mut r), n_rand));
+                    }
+                    for spec in env::special_cross(fam, s) {
+                        if build_caught(&spec).is_ok() {
+                            v.push(Job::Disc(spec, n_rand));
+                        }
                     }
                 }
             }
